@@ -4,6 +4,8 @@ MK = 'pedal/sandbox/mocked.py'
 TO = 'pedal/sandbox/timeout.py'
 
 CASES = [
+    dict(name='revert-fix-str-guard-exception-only', kind='mutant', rule='R4', key='runtime_error.__init__:builds[str(exception)=raises SystemExit]',
+         edits=[dict(file='pedal/sandbox/feedbacks.py', old="        except BaseException:\n            # A student-defined exception can have a broken __str__ (one that exits included)", new="        except Exception:\n            # A student-defined exception can have a broken __str__")]),
     dict(name='revert-fix-format_line-without-columns', kind='mutant', rule='R4', key='format_line[',
          edits=[dict(file='pedal/utilities/exceptions.py', old="        if frame.colno is None or frame.end_colno is None:", new="        if False:")]),
     dict(name='narrow-exception-handler', kind='mutant', rule='R1', key='Sandbox._execute',
@@ -49,8 +51,8 @@ CASES = [
     dict(name='revert-fix-str-guard', kind='mutant', rule='R4', key='str(exception)',
          edits=[dict(file=FB, old="""        try:
             exception_message = str(exception)
-        except Exception:
-            # A student-defined exception can have a broken __str__
+        except BaseException:
+            # A student-defined exception can have a broken __str__ (one that exits included)
             exception_message = "<exception str() failed>"
 """, new="        exception_message = str(exception)\n")]),
     dict(name='fstring-of-exception-in-capture', kind='mutant', rule='R4', key='f-string',
@@ -99,14 +101,14 @@ CASES = [
     dict(name='twin-safe_str-helper', kind='twin',
          edits=[dict(file=FB, old="""        try:
             exception_message = str(exception)
-        except Exception:
-            # A student-defined exception can have a broken __str__
+        except BaseException:
+            # A student-defined exception can have a broken __str__ (one that exits included)
             exception_message = "<exception str() failed>"
 """, new="""        exception_message = safe_str(exception)
 """), dict(file=FB, old="class runtime_error(FeedbackResponse):", new="""def safe_str(value):
     try:
         return str(value)
-    except Exception:
+    except BaseException:
         return "<exception str() failed>"
 
 
